@@ -1,21 +1,27 @@
 // First loop of Expression::from: the equation system read off the automaton -- spec and proof code only.
-// The automaton is opaque: its states in depth-first order, accepting predicate and edge map are uninterpreted views.
+// The automaton is opaque: its states in depth-first order, accepting predicate and out-edges are uninterpreted views.
+// Out-edges are a SEQUENCE of (label, target): parallel edges between two states are allowed (the graph rebuilt after minimisation
+// has them, e.g. for the test cases "ac", "bc"); Expression::from unions their labels.
 pub uninterp spec fn d_states(d: Dfa) -> Seq<State>;
 pub uninterp spec fn d_final(d: Dfa, s: State) -> bool;
-pub uninterp spec fn d_edges(d: Dfa) -> Map<(State, State), Grapheme>;
+pub uninterp spec fn d_out(d: Dfa, s: State) -> Seq<(Grapheme, State)>;
+pub open spec fn has_edge(d: Dfa, s: State, t: State) -> bool { exists|k: int| 0 <= k < d_out(d, s).len() && (#[trigger] d_out(d, s)[k]).1 == t }
 pub open spec fn states_ok(d: Dfa) -> bool {
     d_states(d).no_duplicates()
-    && forall|s: State, t: State| #[trigger] d_edges(d).contains_key((s, t)) && d_states(d).contains(s) ==> d_states(d).contains(t)
+    && forall|s: State, k: int| d_states(d).contains(s) && 0 <= k < d_out(d, s).len() ==> d_states(d).contains((#[trigger] d_out(d, s)[k]).1)
 }
-// language of the transition i -> j and of "state i accepts"
-pub open spec fn edge_lang(d: Dfa, i: int, j: int) -> Lang {
-    if d_edges(d).contains_key((d_states(d)[i], d_states(d)[j])) { lit_lang(seq![d_edges(d)[(d_states(d)[i], d_states(d)[j])]]) } else { ISet::empty() }
+// union of the label languages of the first k out-edges that lead to t
+pub open spec fn edge_lang_upto(es: Seq<(Grapheme, State)>, t: State, k: int) -> Lang
+    decreases k
+{
+    if k <= 0 { ISet::empty() } else { edge_lang_upto(es, t, k - 1).union(if es[k - 1].1 == t { lit_lang(seq![es[k - 1].0]) } else { ISet::empty() }) }
 }
+pub open spec fn edge_lang(d: Dfa, i: int, j: int) -> Lang { edge_lang_upto(d_out(d, d_states(d)[i]), d_states(d)[j], d_out(d, d_states(d)[i]).len() as int) }
 pub open spec fn fin_lang(d: Dfa, i: int) -> Lang { if d_final(d, d_states(d)[i]) { eps() } else { ISet::empty() } }
 // the matrices encode the automaton
 pub open spec fn encodes(a: Seq<Row>, b: Row, d: Dfa, n: int) -> bool {
     &&& forall|i: int, j: int| 0 <= i < n && 0 <= j < n ==> olang(#[trigger] a[i][j]) == edge_lang(d, i, j)
-    &&& forall|i: int, j: int| 0 <= i < n && 0 <= j < n && (#[trigger] a[i][j]) is Some ==> d_edges(d).contains_key((d_states(d)[i], d_states(d)[j]))
+    &&& forall|i: int, j: int| 0 <= i < n && 0 <= j < n && (#[trigger] a[i][j]) is Some ==> has_edge(d, d_states(d)[i], d_states(d)[j])
     &&& forall|i: int| 0 <= i < n ==> olang(#[trigger] b[i]) == fin_lang(d, i)
 }
 // `rl` solves the right-language equations of the automaton; `rank` witnesses that it is acyclic
@@ -26,7 +32,7 @@ pub open spec fn edge_row_sum(d: Dfa, i: int, k: int) -> Lang
 }
 pub open spec fn dfa_solved_by_rl(d: Dfa, n: int) -> bool { forall|i: int| 0 <= i < n ==> rl(i) == #[trigger] edge_row_sum(d, i, n).union(fin_lang(d, i)) }
 pub open spec fn dfa_ranked(d: Dfa, n: int) -> bool {
-    forall|i: int, j: int| 0 <= i < n && 0 <= j < n && #[trigger] d_edges(d).contains_key((d_states(d)[i], d_states(d)[j])) ==> rank(i) < rank(j)
+    forall|i: int, j: int| 0 <= i < n && 0 <= j < n && #[trigger] has_edge(d, d_states(d)[i], d_states(d)[j]) ==> rank(i) < rank(j)
 }
 pub proof fn lemma_row_sum_is_edge_row_sum(a: Seq<Row>, b: Row, d: Dfa, n: int, i: int, k: int)
     requires encodes(a, b, d, n), 0 <= i < n, 0 <= k <= n
@@ -49,8 +55,11 @@ pub proof fn lemma_encoded_system(a: Seq<Row>, b: Row, d: Dfa, n: int)
         assert(olang(b[i]) == fin_lang(d, i));
     }
     assert forall|i: int, j: int| 0 <= i < n && 0 <= j < n && (#[trigger] a[i][j]) is Some implies rank(i) < rank(j) by {
-        assert(d_edges(d).contains_key((d_states(d)[i], d_states(d)[j])));
+        assert(has_edge(d, d_states(d)[i], d_states(d)[j]));
     }
 }
-// position of a state in the duplicate-free state list
-pub open spec fn index_of(s: Seq<State>, x: State) -> int { choose|j: int| 0 <= j < s.len() && s[j] == x }
+// row i while its out-edges are being processed: column j holds the labels of the first k edges that lead to state j
+pub open spec fn row_partial(row: Row, d: Dfa, i: int, n: int, k: int) -> bool {
+    forall|j: int| 0 <= j < n ==> olang(#[trigger] row[j]) == edge_lang_upto(d_out(d, d_states(d)[i]), d_states(d)[j], k)
+        && (row[j] is Some ==> exists|q: int| 0 <= q < k && q < d_out(d, d_states(d)[i]).len() && (#[trigger] d_out(d, d_states(d)[i])[q]).1 == d_states(d)[j])
+}
